@@ -274,7 +274,7 @@ Definition model_obs_st (m : url_mode) (c : case) : st (list val) :=
   let root := c_tree c in
   let r := c_r c in
   let a := c_a c in
-  sseq
+  sseq (
   [ sret (put_out put_tuple (resource_path_tuple root r (c_els c)));
     smap (put_out put_text) (resource_path_st root r (c_els c));
     smap (put_out put_found) (sbind (sret (resource_path_tuple root r [])) (fun t => find7_st root a (PTuple t)));
@@ -290,11 +290,14 @@ Definition model_obs_st (m : url_mode) (c : case) : st (list val) :=
     smap (put_out put_text) (resource_url_st m root r (c_els c) (c_vroot c) (c_script c) (c_app c));
     smap (put_out put_text) (request_resource_path_st m root r (c_els c) (c_vroot c) (c_script c));
     smap (put_out put_found) (virtual_root_st m root r (c_vroot c));
-    smap (put_out put_back) (request_back_st m root r (c_vroot c)) ].
+    smap (put_out put_back) (request_back_st m root r (c_vroot c)) ]
+  ++ map (fun p => smap (put_out put_text) (resource_url_st m root p [] (c_vroot c) (c_script c) (c_app c))) (c_more c)).
 
 Lemma model_obs_st_ok m c : tracks (model_obs_st m c) (model_obs m c).
 Proof.
-  unfold model_obs_st, model_obs. apply sseq_ok.
+  unfold model_obs_st, model_obs. apply sseq_ok. apply Forall2_app.
+  2:{ induction (c_more c) as [|p l IH]; [constructor|]. simpl. constructor; [|exact IH].
+      apply tracks_map, resource_url_st_ok. }
   repeat (apply Forall2_cons); try apply Forall2_nil.
   - apply tracks_ret.
   - apply tracks_map, resource_path_st_ok.
@@ -330,7 +333,7 @@ Qed.
 (* non-vacuity: the second of two identical cases is answered from warm caches *)
 Definition hist_case : case :=
   mkCase (Node (Some [([97]%N, Node (Some [([98]%N, Node None)]))])) [0; 0] [0] [[98]%N] [98]%N
-         [[99]%N] (Some [47; 97]%N) [] (Some [104]%N) true.
+         [[99]%N] (Some [47; 97]%N) [] (Some [104]%N) true [[0]; []].
 Example history_example7 :
   let '(o1, C1) := model_obs_st UrlTupleCompare hist_case cold in
   let '(o2, C2) := model_obs_st UrlTupleCompare hist_case C1 in
